@@ -176,13 +176,6 @@ class BitStringPayloadDecoder(AbstractSimplePayloadDecoder):
         if not length:
             raise error.PyAsn1Error('Empty BIT STRING substrate')
 
-        for chunk in isEndOfStream(substrate):
-            if isinstance(chunk, SubstrateUnderrunError):
-                yield chunk
-
-        if chunk:
-            raise error.PyAsn1Error('Empty BIT STRING substrate')
-
         if tagSet[0].tagFormat == tag.tagFormatSimple:  # XXX what tag to check?
 
             for trailingBits in readFromStream(substrate, 1, options):
